@@ -139,12 +139,41 @@ def r5_class_defaults(ctx, sym):
     ctx.ok('R5', 'class-table', sample={'classes': n})
 
 
+KIND_NAMES = ('MISCONCEPTION', 'MISTAKE', 'HINT', 'CONSTRAINT', 'METACOGNITIVE', 'REINFORCEMENT', 'ENCOURAGEMENT',
+              'RESULT', 'PERFORMANCE', 'INSTRUCTIONAL', 'META')   # confirmed by reading feedback_category.py
+
+
+def r11_kinds_distinct(ctx, sym):
+    ctx.rule('R11', "merge() sets aside exactly the feedback whose kind equals Feedback.KINDS.COMPLIMENT: each other "
+                    "kind constant of FeedbackKind (the names confirmed on today's tree; a new alias name for "
+                    "COMPLIMENT is not looked at) evaluates to a value different from COMPLIMENT's, so a triggered, "
+                    "visible feedback of that kind still takes part in the correctness conjunction")
+    fb = ctx.repo.module(FEEDBACK)
+    compl = sym.const(fb, ast.parse('Feedback.KINDS.COMPLIMENT', mode='eval').body)
+    n = 0
+    for name in KIND_NAMES:
+        expr = ast.parse('Feedback.KINDS.%s' % name, mode='eval').body
+        try:
+            val = sym.const(fb, expr)
+        except KeyError:
+            ctx.ok('R11', 'kind:' + name, nontrivial=False)   # the name is gone: nothing can carry it
+            continue
+        n += 1
+        ki = sym.find_class('pedal.core.feedback_category', 'FeedbackKind')
+        ctx.check(val != compl, 'R11', 'kind:' + name, ki.module, ki.attrs.get(name) or ki.node,
+                  "FeedbackKind.%s evaluates to %r, the value merge() compares with to set compliments aside" % (name, val),
+                  "a triggered, unmuted feedback of kind %s with correct=False no longer makes the result incorrect"
+                  % name, function='FeedbackKind', construct='%s = %r' % (name, val))
+    ctx.floor('R11', 'kind constants evaluated', n, 8)
+
+
 def run(ctx):
     sym = Symbols(ctx.repo)
     model = Model(ctx, sym)
     r1_r3_correct_table(ctx, sym, model)
     r4_initial(ctx, sym, model)
     r5_class_defaults(ctx, sym)
+    r11_kinds_distinct(ctx, sym)
     # the merge/finalize table above speaks about resolve() only if resolve() feeds every feedback through it
     from .c01 import r3_r5_resolvers
     r3_r5_resolvers(ctx, sym, ids=('R6', 'R7'), writers=False)
